@@ -112,6 +112,7 @@ class SparseMLPModel(MLPModel):
         **MLPModel._parameter_constraints,
         "M": [Interval(Real, 0, np.inf, closed="left")],
         "alpha": [Interval(Real, 0, np.inf, closed="left")],
+        "groups": [list, None],
         "dynamic": [bool]
     }
 
